@@ -96,6 +96,16 @@ R (one file name used again, all short histories)
     (the axis, the observables) the file held when it imported, later exports, imports and
     writes into other receivers do not reach it; a fresh import returns the last export.
 
+S (several objects one after another in ONE open file object)
+    2 or 3 objects (object no. k = content variant k of its class) x sequence of classes
+    (every class in every position; complete products over class alphabets) x medium {binary
+    file, BytesIO} x save route {obj.save(f), save_parcel(obj, f)} x load route {x.load(f),
+    load_parcel(f)} x read order {consecutive after one rewind; every permutation of the
+    positions by the offsets f.tell() gave; every object read back right after it was saved,
+    then all consecutively}.  The position of the file object is part of the history.  Oracle:
+    what is read at the place of object no. k has the class and the observable data of the
+    never-saved twin of object no. k (class R).
+
 Everything the check writes goes to a fresh ``tempfile.mkdtemp()`` directory which is removed
 before the case returns.
 """
@@ -2112,7 +2122,193 @@ def cases_r(tier):
     return cs
 
 
+# ==========================================================================
+# S: several objects one after another in ONE open file object
+# ==========================================================================
+# Parcel.save writes at the current position of a file object and load_parcel / Saveable.load
+# read from the current position: a series of objects can be stored in one open file and read
+# back, and the position of the file object is part of the history.  Product:
+#   objects   2 or 3 objects, object no. k being the content variant k of its class, so two
+#             objects of one class differ; the sequence of classes: quick - every class in every
+#             position (rotations of the class list, S_STRIDE apart) + the complete product
+#             over a small alphabet; thorough - every ordered pair of all classes, the complete
+#             product of triples over S_ALPHA3, rotations;
+#   medium    a binary file opened "wb+" / io.BytesIO;
+#   save      obj.save(f) | save_parcel(obj, f)        (every object of the series the same way)
+#   load      x.load(f) (x: the saved object itself) | load_parcel(f)
+#   order     "consecutive": rewind once, n loads in a row;
+#             every permutation of the positions (the identity too), the file object moved to
+#             the offset f.tell() gave before the object was saved;
+#             "read-back": every object is read back right after it was saved (seek to its
+#             offset, load, seek to the end), then all consecutively.
+# Oracle: the object read at the place of object no. k has the class and the observable data of
+# the never-saved twin of object no. k (class R).  Classes that are no Saveable
+# (StateVectorEvolution) are saved with save_parcel and read by x.load of a TimeAxis.
+S_STRIDE = {2: [5], 3: [5, 7]}
+S_ALPHA2 = ["TimeAxis", "Operator", "DFunction", "Hamiltonian", "Aggregate",
+            "AbsSpectrumContainer"]
+S_ALPHA3 = {"quick": ["TimeAxis", "Operator", "CorrelationFunction"],
+            "thorough": ["TimeAxis", "FrequencyAxis", "Operator", "DFunction", "Hamiltonian",
+                         "Molecule", "CorrelationFunction", "TwoDResponse"]}
+S_MEDIA = ["file", "bytesio"]
+S_SAVE = ["save-method", "save_parcel"]
+S_LOAD = ["load-method", "load_parcel"]
+
+
+def _s_orders(n):
+    out = [["consecutive", list(range(n))]]
+    for p in itertools.permutations(range(n)):
+        out.append(["by-offset-in-order" if list(p) == list(range(n))
+                    else "by-offset-other-order", list(p)])
+    out.append(["read-back-after-each-save", list(range(n))])
+    return out
+
+
+def eval_s(case):
+    import io
+    from quantarhei.core.parcel import save_parcel, load_parcel
+    qr = isolation.qr()
+    isolation.reset_manager()
+    classes, medium, sroute, lroute = case["classes"], case["medium"], case["save"], case["load"]
+    n = len(classes)
+    hist0 = "series (%s) in one %s, %s / %s" % (
+        ", ".join(classes), "binary file" if medium == "file" else "BytesIO", sroute, lroute)
+    viol, seen = [], set()
+    tmp = _mkdtemp("c18s_") if medium == "file" else None
+    twins = []
+    for k, cls in enumerate(classes):
+        tw = _build(cls, k)[0]
+        twins.append((type(tw).__module__ + "." + type(tw).__name__, _freeze(observe(cls, tw))))
+    tagr = "saved-by-%s/loaded-by-%s" % (sroute, lroute)
+    count, last = 0, None
+
+    def add(key, what):
+        if key not in seen:
+            seen.add(key)
+            viol.append((key, what, None))
+
+    def lib(stage, f, hist):
+        try:
+            return True, f()
+        except isolation.HarnessError:
+            raise
+        except Exception as e:
+            where = _lib_frame(e)
+            if where is None:
+                raise isolation.HarnessError("S harness failure at %s: %r in %r"
+                                             % (stage, e, case))
+            add("stream/%s-raises:%s/%s" % (stage, type(e).__name__, tagr),
+                "%s -> %s raised %s: %s [%s]" % (hist, stage, type(e).__name__, str(e)[:160],
+                                                 where))
+            return False, None
+
+    def save(o, f, hist):
+        if sroute == "save-method" and isinstance(o, qr.Saveable):
+            return lib("save", lambda: o.save(f), hist)[0]
+        return lib("save", lambda: save_parcel(o, f), hist)[0]
+
+    def load(o, f, hist):
+        if lroute == "load-method":
+            x = o if isinstance(o, qr.Saveable) else qr.TimeAxis(0.0, 2, 1.0)
+            return lib("load", lambda: x.load(f), hist)
+        return lib("load", lambda: load_parcel(f), hist)
+
+    def compare(k, got, okind, hist, when):
+        tname, exp = twins[k]
+        if type(got).__module__ + "." + type(got).__name__ != tname:
+            add("stream/object-type-differs/%s/%s/object-no-%d-of-%d" % (tagr, okind, k + 1, n),
+                "%s: %s the place of object no. %d (a %s) gave a %s"
+                % (hist, when, k + 1, classes[k], type(got).__name__))
+            return
+        diff = _obs_diff(exp, _freeze(observe(classes[k], got)))
+        if diff is not None:
+            add("stream/object-values-differ/%s/%s/%s/%s" % (classes[k], diff[0], tagr, okind),
+                "%s: %s the place of object no. %d (%s) observable %s differs from the "
+                "never-saved twin of that object (%s)"
+                % (hist, when, k + 1, classes[k], diff[0], diff[1]))
+
+    try:
+        for okind, order in _s_orders(n):
+            count += 1
+            hist = "%s, read order %s %r" % (hist0, okind, order)
+            isolation.reset_manager()
+            objs = [_build(cls, k)[0] for k, cls in enumerate(classes)]
+            f = open(os.path.join(tmp, "series%d.qrp" % count), "wb+") if medium == "file" \
+                else io.BytesIO()
+            try:
+                offs, ok = [], True
+                for k, o in enumerate(objs):
+                    offs.append(f.tell())
+                    if not save(o, f, hist):
+                        ok = False
+                        break
+                    if okind == "read-back-after-each-save":
+                        f.seek(offs[k])
+                        ok, got = load(o, f, hist)
+                        if not ok:
+                            break
+                        compare(k, got, okind, hist, "right after it was saved, reading at")
+                        f.seek(0, 2)
+                if not ok:
+                    continue
+                if okind in ("consecutive", "read-back-after-each-save"):
+                    f.seek(0)
+                for k in order:
+                    if okind.startswith("by-offset"):
+                        f.seek(offs[k])
+                    ok, got = load(objs[k], f, hist)
+                    if not ok:
+                        break
+                    compare(k, got, okind, hist, "reading at")
+                    last = got
+            finally:
+                f.close()
+    finally:
+        if tmp is not None:
+            shutil.rmtree(tmp, ignore_errors=True)
+        isolation.reset_manager()
+    return {"nontrivial": True, "n": count - 1, "violations": viol,
+            "outcome": ["ok" if not viol else "bad", classes, medium, sroute, lroute, count,
+                        type(last).__name__ if last is not None else None]}
+
+
+def _s_rotations(classes, n):
+    out = []
+    for stride in S_STRIDE[n]:
+        for cast in range(len(classes)):
+            out.append([classes[(cast + stride * i) % len(classes)] for i in range(n)])
+    return out
+
+
+def cases_s(tier):
+    seqs, have = [], set()
+
+    def add(seq):
+        if tuple(seq) not in have:
+            have.add(tuple(seq))
+            seqs.append(list(seq))
+    if tier == "quick":
+        for s in _s_rotations(H_CLASSES, 2)[:len(H_CLASSES)]:
+            add(s)
+        for s in itertools.product(S_ALPHA2, repeat=2):
+            add(s)
+        for s in _s_rotations(H_CLASSES, 3)[:len(H_CLASSES)]:
+            add(s)
+    else:
+        for s in itertools.product(H_CLASSES, repeat=2):
+            add(s)
+        for s in _s_rotations(H_CLASSES, 3):
+            add(s)
+    for s in itertools.product(S_ALPHA3[tier], repeat=3):
+        add(s)
+    seqs.sort(key=len)
+    return [{"part": "S", "classes": s, "medium": m, "save": sv, "load": ld}
+            for s in seqs for m in S_MEDIA for sv in S_SAVE for ld in S_LOAD]
+
+
 def eval_case(case):
+    if case["part"] == "S":
+        return eval_s(case)
     if case["part"] == "G":
         return eval_g(case)
     if case["part"] == "X":
@@ -2131,7 +2327,8 @@ def replay(case):
 
 
 def cases(tier):
-    return cases_g(tier) + cases_x(tier) + cases_r(tier) + cases_d(tier) + cases_i(tier) + cases_h(tier)
+    return cases_g(tier) + cases_x(tier) + cases_r(tier) + cases_s(tier) + cases_d(tier) \
+        + cases_i(tier) + cases_h(tier)
 
 
 def _collect_i(infos):
@@ -2183,7 +2380,11 @@ def run(run):
                 "class x extension x {real, complex} x shape x kind of frequency axis (signs "
                 "and sizes of its values) x every energy unit of the Manager, export and "
                 "import with the axis inside energy_units(u), non-trivial = units other "
-                "than the internal ones"
+                "than the internal ones; S: 2-3 objects saved one after another into ONE open "
+                "file object x sequence of classes (every class in every position, complete "
+                "products over class alphabets) x medium {file, BytesIO} x save route x load "
+                "route x read order (consecutive, every permutation by recorded offsets, read "
+                "back after each save)"
                 % ((maxdepth, lmid, d_bounds(run.tier), i_bounds(run.tier)[1])
                    + r_bounds(run.tier)))
     run.assumptions = [
@@ -2218,6 +2419,9 @@ def run(run):
         "of the units it was written in); the expected axis values are the ones the exported "
         "axis itself shows at the same place (inside) and showed before the context (internal "
         "units), so no conversion factor is an input of the oracle",
+        "S: the caller moves the file object only to offsets f.tell() returned before a save, "
+        "to the start and to the end; objects that are no Saveable are written with "
+        "save_parcel and read by the load method of a TimeAxis",
         "G shape rule: where the layout of the file cannot tell a dimension of length one "
         "from no dimension (header-less .dat/.txt tables without axis; [axis | data] layout "
         "with one data column) the loaded shape may be the exported one with unit dimensions "
@@ -2242,6 +2446,12 @@ def run(run):
                         "max_nesting": i_bounds(run.tier)[1], "classes": I_CLASSES,
                         "extensions": i_bounds(run.tier)[3], "read_points": I_POINTS,
                         "matrix_kinds_per_class": i_bounds(run.tier)[2] or "all"},
+                  "S": {"objects_per_file": [2, 3], "media": S_MEDIA, "save_routes": S_SAVE,
+                        "load_routes": S_LOAD,
+                        "read_orders": ["consecutive", "every permutation by offset",
+                                        "read-back-after-each-save"],
+                        "pair_alphabet": S_ALPHA2 if run.tier == "quick" else H_CLASSES,
+                        "triple_alphabet": S_ALPHA3[run.tier], "rotation_strides": S_STRIDE},
                   "R": {"data_ops": R_DATA_OPS, "parcel_ops": R_PARCEL_OPS,
                         "max_steps_data": r_bounds(run.tier)[0],
                         "max_steps_parcel": r_bounds(run.tier)[1],
@@ -2250,6 +2460,7 @@ def run(run):
     ig = run_grid(run, cases_g(run.tier), eval_case, section="G-formats")
     ig += run_grid(run, cases_x(run.tier), eval_case, section="X-axis-in-units")
     ir = run_grid(run, cases_r(run.tier), eval_case, section="R-file-reuse")
+    run_grid(run, cases_s(run.tier), eval_case, section="S-series-in-one-file-object")
     run_grid(run, cases_d(run.tier), eval_case, section="D-directories")
     ii = run_grid(run, cases_i(run.tier), eval_case, section="I-import-in-context")
     ih = run_grid(run, cases_h(run.tier), eval_case, section="H-parcels")
